@@ -217,10 +217,16 @@ def run_pair(ctx, a, b, ct, cd, batch, pending, compare_model=True):
     try:
         ctx.evaluation()
         # (ii) quiet
-        _, _, ops_q = S.produce(conn, mda, ct, cd, batch)
-        pending.append(("quiet", inp, ops_q, None))
-        # (i) correspondence of the diff
-        mctx, script, ops = S.produce(conn, mdb, ct, cd, batch)
+        try:
+            _, _, ops_q = S.produce(conn, mda, ct, cd, batch)
+            pending.append(("quiet", inp, ops_q, None))
+            # (i) correspondence of the diff
+            mctx, script, ops = S.produce(conn, mdb, ct, cd, batch)
+        except Exception as e:
+            if pair_wf(a, b):
+                ctx.fail(inp, "autogenerate-error: autogenerate raises (%s: %s)" % (type(e).__name__, str(e)[:300]),
+                         tags=["batch:%s" % batch, "exc:%s" % type(e).__name__] + flags)
+            return "autogenerate-error"
         if compare_model:
             pending.append(("diff", {**inp, "b": order_b(b, mdb)}, ops, in_class))
         kinds = sorted({o["k"] for o in ops})
@@ -244,7 +250,13 @@ def run_pair(ctx, a, b, ct, cd, batch, pending, compare_model=True):
             else:
                 ctx.hist("pair.outcome", "upgrade-error-outside-class")
             return "upgrade-error"
-        _, _, ops2 = S.produce(conn, mdb, ct, cd, batch)
+        try:
+            _, _, ops2 = S.produce(conn, mdb, ct, cd, batch)
+        except Exception as e:
+            if pair_wf(a, b):
+                ctx.fail(inp, "converge-error: the second autogenerate raises after the upgrade (%s: %s)" % (type(e).__name__, str(e)[:300]),
+                         impl={"first": ops, "src": src}, tags=["batch:%s" % batch, "exc:%s" % type(e).__name__] + flags)
+            return "converge-error"
         pending.append(("converge", inp, ops2, {"first": ops, "src": src}))
         if compare_model and in_class:
             pending.append(("db", {**inp, "b": order_b(b, mdb)}, live_dump(conn), None))
